@@ -80,3 +80,17 @@ Definition upload_exchange : exchange :=
 
 (* the acknowledgement itself *)
 Definition ack_replies : list (N * N) := [CF_ACK].
+
+(* ------------------------------------------------------------------ C.6 Feig file ids (manual 6.13, table 2)  (C) *)
+Definition upload_file_ids : list (string * N) := [
+  ("firmware/kernel.gz", 0x10); ("firmware/rootfs.gz", 0x11); ("firmware/components.tar.gz", 0x12);
+  ("firmware/update.spec", 0x13); ("firmware/update_extended.spec", 0x14);
+  ("app0/update.spec", 0x20); ("app0/update.tar.gz", 0x21);
+  ("app1/update.spec", 0x22); ("app1/update.tar.gz", 0x23);
+  ("app2/update.spec", 0x24); ("app2/update.tar.gz", 0x25);
+  ("app3/update.spec", 0x26); ("app3/update.tar.gz", 0x27);
+  ("app4/update.spec", 0x28); ("app4/update.tar.gz", 0x29);
+  ("app5/update.spec", 0x30); ("app5/update.tar.gz", 0x31);
+  ("app6/update.spec", 0x32); ("app6/update.tar.gz", 0x33);
+  ("app7/update.spec", 0x34); ("app7/update.tar.gz", 0x35)
+]%string.
